@@ -151,6 +151,12 @@ where
             ExtendResult::Reached
         };
 
+        // Steering follows the shortest path, which may leave a bounded region (e.g. across the
+        // seam of an angular interval); such states never enter a tree.
+        if !pd.space.satisfies_bounds(&q_new) {
+            return None;
+        }
+
         if Self::check_motion(&q_near, &q_new, pd, vc) {
             let new_node_idx = tree.len();
             tree.push(Node {
